@@ -69,6 +69,65 @@ theorem fast_params_sound (k d : Nat) (sn sd : Int) (cap f a : Nat) (h : fastCov
   have := check_params_sound k d sn sd cap h.1.1.1.1.1
   omega
 
+/-! ### epochs: what the build loops rely on -/
+
+/-- **epochs_sound**: with accepted parameters (k > 0) and AT LEAST ONE d-mer, COVER_computeEpochs divides by nothing that is zero and
+returns a non-empty tiling that stays inside the d-mer range: 0 < num, 0 < size, num * size ≤ nbDmers (the loop `epoch = (epoch+1) % num`
+and the positions `epoch*size .. epoch*size+size` are in range) -/
+theorem epochs_sound (cap n k passes : Nat) (hk : 0 < k) (hp : 0 < passes) (hn : 0 < n) :
+    ∃ num size, computeEpochs cap n k passes = some (num, size) ∧ 0 < num ∧ 0 < size ∧ num * size ≤ n := by
+  unfold computeEpochs
+  have h0 : ¬ (k = 0 ∨ passes = 0) := by omega
+  simp only [h0, if_false]
+  by_cases h1 : k * 10 ≤ n / max 1 (cap / k / passes)
+  · simp only [h1, if_true]
+    refine ⟨_, _, rfl, ?_, ?_, ?_⟩
+    · exact Nat.lt_of_lt_of_le Nat.zero_lt_one (Nat.le_max_left _ _)
+    · omega
+    · rw [Nat.mul_comm]; exact Nat.div_mul_le_self _ _
+  · simp only [h1, if_false]
+    have hs : 0 < min (k * 10) n := by
+      rw [Nat.lt_min]; omega
+    have hne : ¬ (min (k * 10) n = 0) := by omega
+    simp only [hne, if_false]
+    refine ⟨_, _, rfl, ?_, hs, ?_⟩
+    · exact Nat.div_pos (Nat.min_le_right _ _) hs
+    · exact Nat.div_mul_le_self _ _
+
+/-- **epochs_need_a_dmer**: the precondition cannot be dropped - with no d-mer the function has no value (the C code divides by zero) -/
+theorem epochs_need_a_dmer (cap k passes : Nat) : computeEpochs cap 0 k passes = none := by
+  unfold computeEpochs
+  by_cases h0 : k = 0 ∨ passes = 0
+  · simp [h0]
+  · have hk : 0 < k := by omega
+    simp [h0]
+    omega
+
+/-- **dmer_count_pos**: a training part accepted by the size rule has at least one d-mer and all of them lie inside it
+(a d-mer read takes max(d,8) bytes) - the hypothesis of `epochs_sound` -/
+theorem dmer_count_pos (t d n : Nat) (h : dmerCount t d = some n) : 0 < n ∧ n - 1 + max d 8 ≤ t := by
+  unfold dmerCount at h
+  by_cases hc : t < max d 8
+  · simp [hc] at h
+  · simp only [hc, if_false, Option.some.injEq] at h
+    omega
+
+/-- **ctx_init_sound**: a context accepted by the size rules gives every build loop (any capacity, any accepted k, cover's 4 passes or
+fastCover's 1) a well-defined, non-empty epoch tiling inside the training part -/
+theorem ctx_init_sound (total t nbTrain nbTest d n cap k passes : Nat) (h : ctxInit total t nbTrain nbTest d = some n) (hk : 0 < k) (hp : 0 < passes) :
+    5 ≤ nbTrain ∧ 1 ≤ nbTest ∧ n - 1 + max d 8 ≤ t ∧
+    ∃ num size, computeEpochs cap n k passes = some (num, size) ∧ 0 < num ∧ 0 < size ∧ num * size ≤ n := by
+  unfold ctxInit at h
+  by_cases h1 : total < max d 8 ∨ 2 ^ 32 - 1 ≤ total
+  · rw [if_pos h1] at h
+    exact absurd h (by simp)
+  · by_cases h2 : nbTrain < 5 ∨ nbTest < 1
+    · rw [if_neg h1, if_pos h2] at h
+      exact absurd h (by simp)
+    · rw [if_neg h1, if_neg h2] at h
+      have hd := dmer_count_pos t d n h
+      exact ⟨by omega, by omega, hd.2, epochs_sound cap n k passes hk hp hd.1⟩
+
 /-! ### the optimisers' result holder, for every schedule -/
 
 /-- counter invariant: liveJobs = dispatched − finished, finished jobs were dispatched, no job finishes twice -/
